@@ -384,7 +384,7 @@ impl Prop for C08 {
         let base = corpus_units(
             &Space {
                 k: if thorough { 1 } else { 0 },
-                ctx_limit: if thorough { 99 } else { 2 },
+                ctx_limit: if thorough { 4 } else { 2 },
                 layouts: vec![Layout::L0, Layout::LAll, Layout::LTabs],
                 style_editions: vec![2024],
                 cfg_mode: CfgMode::DefaultOnly,
